@@ -46,6 +46,18 @@ CHECKS = {
    "exhaustive enumeration of element alphabets x formats (round trip, injectivity) and of decoder inputs (every tag/flag combination x coordinate alphabet, byte sweeps, every length) judged by format-definition parsers over the math/big curve model",
    "For k256, p256, edwards25519 (+prime subgroup), curve25519 (+prime subgroup), pallas, vesta, BLS12-381 G1/G2/GT and all 10 prime fields + Fp2: every alphabet element (identity in two forms, generator multiples, points with x=0, small-order and out-of-subgroup points) round-trips through every format (compressed, uncompressed, Bytes, MarshalBinary, CBOR, affine, affine-x) and encoders are injective; every decoder input over {tag byte or all 8 BLS flag combinations} x coordinate alphabet (0,1,2,p-1,p,p+1,2^k-1, coordinates without partner, x=0/small-order/out-of-subgroup coordinates, unreduced aliases), first/last-byte sweeps and every length 0..2*size+1: an ACCEPTED input must denote a point on the reference curve (in the prime subgroup where the type promises it) / the field element = bytes mod q; wrong lengths, wrong flags, off-curve coordinates must be rejected; no panic.",
    "Trusts math/big, ref/curve and the format parsers written from the standards (SEC1, RFC 8032/7748, zcash pasta and BLS12-381 serialisation) and a math/big Fp12 tower for GT; uniqueness of accepted encodings is not demanded (the library reduces unreduced coordinates by design).", "DESIGN §5 C13"),
+ "C02": ("CT", "exploration",
+   "exhaustive enumeration of every policy of every family up to n<=5 (6) x every subset x every scheme x secret/randomness alphabet; truth table from the definition, exact rank over the real field, constructive privacy witness",
+   "For every catalogue policy (all threshold (t,n), unanimity, every antichain CNF, every hierarchical layout, every gate tree with repeated leaves) x ID assignment x every subset: IsQualified == definition-level truth table; MSP acceptance == (e0 in the row span) computed by math/big Gaussian elimination on the matrix read out of the library; qualified sets reconstruct the dealt secret (both share orders, reconstruction vector re-multiplied, additive conversion sums to the secret); for unqualified sets the reference SOLVES for a dealer state with every other secret that leaves the set's shares unchanged and pushes it through the library's own dealer (the set's view is consistent with every secret); linearity under Add/ScalarMul; documented refusals are refused. Schemes: KW/MSP, Shamir, additive, ISN, Tassa, Feldman, Pedersen on k256/ed25519/BLS scalars.",
+   "Trusts math/big, ref/linalg, ref/policy (self-tested against the Dedekind numbers); n > 6 and the sampling clause of the quantifier are not covered; randomness injected through a reader calibrated to field.Random's byte layout.", "DESIGN §5 C02"),
+ "C03": ("CT+SCHED", "exploration",
+   "exhaustive enumeration of key-generation configurations (generator x structure x group x compiler x ID assignment x API) with, inside each, every subset of shareholders judged by reference reconstruction",
+   "Gennaro (3 NIZK compilers), Canetti, trusted dealer, Lindell17 dealer (+DKG thorough) over every catalogue structure n<=3 (4) on k256, 7 groups x compilers on T(2,3), all documented ID assignments, both the round-by-round API and the real runners over routers: all parties agree on pk/MSP/verification vector; share*G == published public share (ref/curve); for EVERY subset: qualified => library and math/big reconstruction give x with [x]G == pk, unqualified => refusal and e0 not in the span; ReconstructInTheExponent == pk; different seeds give different keys; CBOR store/reload gives an Equal shard that signs (Lindell22 BIP-340, verified by a reference verifier) like the original; runner and round-by-round pk byte-identical.",
+   "Honest parties, default schedule, FIFO (C04/C11 own the rest); 2 seeds; Lindell17 Paillier keys are not a function of the seed so only pk and base shards are compared.", "DESIGN §5 C03"),
+ "C09": ("CT", "fault_enumeration",
+   "exhaustive enumeration of choice vectors (all 256 at xi=8), shapes, multiplier inputs, and of every single-field alteration of the consistency-check messages, on the real round-by-round OT / SoftSpoken / rVOLE code",
+   "ecbbot and vsot with xi=8: ALL 256 choice bytes x L in {1,2,3} x {k256,p256} x 2 seeds; structured vectors at xi 16/128; SoftSpoken over both base OTs at every admissible small shape incl. (8,16) with all 256 choice bytes; rVOLE (bbot, softspoken) over all inputs {0,1,q-1,mid}^L: receiver message == sender message[choice], the two sender messages differ, outputs sum to the product (math/big); every leaf of the extension's challenge response and of the multiplier's check values (mu, eta, aTilde ...) x mutations (bit flips, zero, neighbouring / other-instance value): the other side must abort at the consistency check; constructors refuse inadmissible shapes.",
+   "Single altered leaf; index alphabets for long vectors in quick (all indices in thorough); structured choice vectors above xi=8; Bob's scalar is controlled through his stream.", "DESIGN §5 C09"),
 }
 NOT_YET = {}
 for i in range(1, 21):
